@@ -6,7 +6,7 @@
 # own profile, merges them and writes
 #     logs/coverage_summary.txt   per-file line/region coverage of /repo/src
 #     logs/coverage_missed.txt    every line of /repo/src that no monitor executed
-# The instrumented binary is 30-100x slower (contended counters), so every 25th case of the
+# The instrumented binary is 30-100x slower (contended counters), so every 31st case (a prime: the generators walk grids by index) of the
 # larger generators is run (NV_SAMPLE); the figures are therefore a lower bound of the reach.
 # usage: ./coverage.sh [tier] [IDs...]
 set -u
@@ -23,7 +23,7 @@ cp /repo/Cargo.lock harness/Cargo.lock
 ( cd harness && RUSTFLAGS="-Cinstrument-coverage" cargo +nightly build --release --offline --target-dir "$S/target" ) > "$S/build.log" 2>&1 \
   || { echo "coverage build failed"; tail -20 "$S/build.log"; exit 2; }
 for id in $IDS; do
-  NV_SAMPLE="${NV_SAMPLE:-25}" VERIF_DIR="$S/verif" LLVM_PROFILE_FILE="$S/prof/$id-%p-%m.profraw" \
+  NV_SAMPLE="${NV_SAMPLE:-31}" VERIF_DIR="$S/verif" LLVM_PROFILE_FILE="$S/prof/$id-%p-%m.profraw" \
     timeout 3600 "$S/target/release/nv" "$id" "$TIER" --result "$S/$id.result" > "$S/$id.log" 2>&1
   echo "$id exit=$? $(tail -n 1 "$S/$id.result" 2>/dev/null | cut -c1-150)"
 done
